@@ -223,7 +223,7 @@ RetRes(e) == IF Has(e, "ret") /\ Has(e.ret, "res") THEN e.ret.res ELSE ""
 \* win: the "nothing else changes" window of C06 -- a filter of a pod running alone, then the bind of that pod on one of
 \* the offered nodes running alone; any other event closes it
 NoWin == [k |-> "none", pod |-> "", uid |-> "", op |-> 0, nodes |-> {}, cand |-> {}, mem0 |-> Emp, node |-> "", synced |-> FALSE]
-G0 == [bindown |-> Emp, filt |-> Emp, sizeAt |-> Emp, everRel |-> {}, apiops |-> {}, assigned |-> Emp, orphan |-> {}, win |-> NoWin]
+G0 == [bindown |-> Emp, fres |-> Emp, filt |-> Emp, sizeAt |-> Emp, everRel |-> {}, apiops |-> {}, assigned |-> Emp, orphan |-> {}, win |-> NoWin]
 WinNext(g, e) ==
     LET wn == g.win IN
     IF e.ev = "StartFilter"
@@ -237,6 +237,9 @@ WinNext(g, e) ==
                       \* the informer has caught up with the pod (otherwise Bind rightly refuses: cache out of date)
                       !.synced = e.pod \in DOMAIN lpods /\ e.pod \in DOMAIN pods /\ lpods[e.pod] = pods[e.pod]]
     ELSE NoWin
+\* the app's reserve as a filter's ByPrefix read shows it: IPs under the app / pool prefix that some node subnet can route
+ReserveSeen(e) == {ip \in ToSet(e.ret.ips) : ip \in DOMAIN mem /\ mem[ip].key = e.args.prefix /\ ip \in ConfIPs(pools) /\ SubnetsOf(pools, ip) # {}}
+IsFilterByPrefix(e) == e.ev = "Step" /\ e.typ = "filter" /\ e.call = "ByPrefix" /\ Has(e, "ret") /\ Has(e.ret, "ips")
 GhostNext(e, w) ==
     LET g == ghost
         g1 == IF e.ev = "StartBind" THEN [g EXCEPT !.bindown = Put(g.bindown, e.op, KeyIPs(mem, KeyOf(pods[e.pod])))] ELSE g
@@ -265,7 +268,13 @@ GhostNext(e, w) ==
         rel == {[key |-> w.mem[ip].key, n |-> cnt(w.mem, w.mem[ip].key), uid |-> w.mem[ip].uid] :
                   ip \in {x \in DOMAIN w.mem : ~IsFree(w.mem[x]) /\ w.mem[x].key.pod # "" /\
                                                  ImmReleasable(w.mem, w.mem[x].key, w.sts, w.dp)}}
-    IN [g4 EXCEPT !.everRel = g4.everRel \cup rel,
+        \* per filter operation: its pod, and the app's reserve (IPs under the app / pool prefix that some node subnet can route) as
+        \* the filter's own ByPrefix read saw it, under the deployment lock
+        g5 == IF e.ev = "StartFilter" THEN [g4 EXCEPT !.fres = Put(g4.fres, e.op, [pod |-> e.pod, seen |-> {}])]
+              ELSE IF IsFilterByPrefix(e) /\ e.op \in DOMAIN g4.fres
+                THEN [g4 EXCEPT !.fres = Put(g4.fres, e.op, [pod |-> g4.fres[e.op].pod, seen |-> ReserveSeen(e)])]
+              ELSE g4
+    IN [g5 EXCEPT !.everRel = g5.everRel \cup rel,
                   !.win = WinNext(g, e)]
 
 StepViolations(e, w) ==
@@ -307,6 +316,12 @@ StepViolations(e, w) ==
            \* (the pod's key still held an IP when its filter ran -- left by the previous incarnation -- and lost it before the bind)
            IF isStep /\ e.typ = "bind" /\ e.call = "AllocateMulti" /\ e.args.key.pod \in DOMAIN ghost.filt /\ ghost.filt[e.args.key.pod].own # {}
              THEN "heldAtFilterLostBeforeBind" ELSE "")
+    \cup V("FilterTakesReserve",           \* a replacement pod of a reserving deployment / pool whose filter found IPs of its app in reserve
+                                           \* and offers nodes has taken one of them for the pod (it is not left to the bind to find a fresh one)
+           isStep /\ e.typ = "filter" /\ ResOk(e) /\ Has(e.res, "nodes") /\ Len(e.res.nodes) > 0 /\ e.op \in DOMAIN ghost.fres /\
+           (IF IsFilterByPrefix(e) THEN ReserveSeen(e) ELSE ghost.fres[e.op].seen) # {} /\ ghost.fres[e.op].pod \in DOMAIN pods /\
+           LET fp == pods[ghost.fres[e.op].pod] IN
+           fp.kind = "dp" /\ PolicyOf(fp) # 0 /\ Len(fp.ranges) = 0 /\ KeyIPs(w.mem, KeyOf(fp)) = {})
     (* ---------------- C03 *)
     \cup V("ReleaseJustified",
            e.ev \notin {"Crash", "Restart"} /\ ~byApi /\ ~Has(e, "crashed") /\
